@@ -68,3 +68,12 @@ Theorem C12_get_words_stop_rule : forall (X : Type) (G : cfg X), is_normal_form 
   forall A w, derives G (V A) w -> length w <= L - k.
 Proof. exact (@stop_rule_all_words). Qed.
 Print Assumptions C12_get_words_stop_rule.
+
+(* get_words(n) mirrored end to end (Model/WordsDp.v): the empty word when the start symbol is nullable, then the length-indexed
+   table on the normal form (words of length 1 from the terminal productions; words of length m from a production A -> B C, a split
+   m = i + j and the levels i, j already filled): exactly the generated words of length at most n, each once *)
+From PFL Require Import Model.CfgOps Model.WordsDp Proofs.WordsDpCode.
+Theorem C12_get_words_code : forall (Vr : Type) (E : EqDec Vr) (fuel : nat) (G : cfg Vr) (n : nat) (ws : list (list N)),
+  get_words_code fuel G n = Some ws -> (forall w, In w ws <-> LangG G w /\ length w <= n) /\ NoDup ws.
+Proof. intros Vr E fuel G n ws H. split; [exact (get_words_code_spec fuel G n ws H)|exact (get_words_code_nodup fuel G n ws H)]. Qed.
+Print Assumptions C12_get_words_code.
